@@ -202,7 +202,9 @@ def proxy_class(remote_class, name=None):
             def rfunc(self, pname=aname):
                 value, _, readerror = self._secnode.getParameter(self.module, pname, True)
                 if readerror:
-                    raise readerror
+                    # a copy: the raised error gets the names of the methods it passes
+                    # through, this must not happen to the error kept in the cache
+                    raise readerror.copy() if hasattr(readerror, 'copy') else readerror
                 return value
 
             attrs['read_' + aname] = rfunc
@@ -212,7 +214,7 @@ def proxy_class(remote_class, name=None):
                 def wfunc(self, value, pname=aname):
                     value, _, readerror = self._secnode.setParameter(self.module, pname, value)
                     if readerror:
-                        raise readerror
+                        raise readerror.copy() if hasattr(readerror, 'copy') else readerror
                     return value
 
                 attrs['write_' + aname] = wfunc
